@@ -2078,6 +2078,9 @@ func judgeContract(o *engine.Outcome, w *world, d *spec.Design, design string, s
 						hk = append(hk, a)
 					}
 					sort.Strings(hk)
+					if e.EmptyBody {
+						hk = append(hk, "(no body: everything in goa-attribute-* headers)")
+					}
 					kinds[k+"|"+strings.Join(hk, ",")] = true
 				}
 			}
